@@ -41,6 +41,8 @@ def main(argv=None) -> int:
             with open(args.replay) as f:
                 run.only_key = json.load(f)["key"]
         mod.check(prog, run)
+        from .rules import shared
+        shared.run_shared(prog, run, prop)
         if args.tier == "thorough" and hasattr(mod, "thorough"):
             mod.thorough(prog, run)
         return run.finish()
